@@ -5,6 +5,6 @@ From Coq Require Import ExtrOcamlBasic.
 From KV Require Import Lib.Bits Lib.Bytes Lib.Varint Lib.Crc Spec.RecordFormat Model.Records Model.Pages.
 Extraction Language OCaml.
 Extraction "c05_model.ml"
-  legacy_v1 legacy_v2 proto_v1 proto_v2 proto_read msr_read
+  legacy_v1 legacy_v2 proto_v1 proto_v2 proto_produce proto_read msr_read
   dec_set dec_prefix enc_set raw_records records records_ctl ts_ms
   s0 step read_ref pb_read_from pb_write_at.
